@@ -50,6 +50,7 @@ def run(repo, rep, tier):
              ("read-history-free", "read-always-sniffs"), minimum=2)
     _retire(repo, rep)
     _loader(repo, rep)
+    L.state_rule(repo, rep)
 
 
 def cook_check_never_returns_uncooked(repo):
